@@ -3,7 +3,12 @@ C04 — Pending backpatches are never observable; filled ones unblock everything
 
 Property theorems only (lemmas: `Woodpile/Proofs/IovecInv.lean`, `IovecAbs.lean`).
 Same model, operation vocabulary, `step`/`run`, invariant `Inv` and abstraction
-`abs` as C03 (see `Props/C03.lean`).
+`abs` as C03 (see `Props/C03.lean`): this file covers the histories of one iovec over the
+`Op` vocabulary; the same clauses for every handle of every multi-object `WOp` history
+(clone, take, arena hand-off, anchored / detached slices, drops, …) are `Props/C04W.lean`
+(`stable_prefix_has_no_hole_w`, `ok_iff_no_pending_w`, `all_filled_unblocks_w`,
+`observed_bytes_immutable_w` / `_handle` / `_unshared`, `slices_never_overwritten_w`), and
+`iovs` / `flatten` / `stable_consumer` as model functions are `Props/C04A.lean`.
 
 `World.visible w v` is what EVERY consumer-side view of the model exposes: the
 bytes of the slices `stable_prefix` returns (`front`, `iovs`, `flatten`,
